@@ -118,7 +118,7 @@ def gen_ops(rng, n, tier):
         elif op == 'mod':
             c['s'] = rng.randint(1, 5)
         elif op == 'pat':
-            c['pat'] = [rng.random() < 0.5 for _ in range(rng.randint(1, 4))]
+            c['pat'] = [rng.random() < 0.5 for _ in range(rng.randint(1, 4))]; c['patint'] = rng.choice([None, None, 'int', 'mixed'])
         elif op == 'rm':
             if k == 0:
                 continue
@@ -169,7 +169,7 @@ def run_ops(case):
     elif op == 'mod':
         r = t % case['s']
     elif op == 'pat':
-        r = t % list(case['pat'])
+        r = t % ([int(b) for b in case['pat']] if case.get('patint') == 'int' else [(int(b) if i % 2 else bool(b)) for i, b in enumerate(case['pat'])] if case.get('patint') == 'mixed' else list(case['pat']))      # the mask written with booleans, with 0 / 1, or a mix
     elif op == 'rm':
         t.removeObsList(list(case['tab']))
         return {'ids': ids_of(t), 'names': t.getListAnalyticalFeatures(), 'feat': [float(v) for v in t['f']] if t.size() else []}
